@@ -592,6 +592,7 @@ class NearestNeighborModel(Model):
         onsite_terms = [None] * L  # onsite terms on each site `i`
         bond_XYZ = [None] * L  # svd of couplings on each bond (i-1, i)
         chis = [2] * (L + 1)
+        chinfo = sites[0].leg.chinfo  # also needed if there are only onsite terms
         assert len(self.H_bond) == L
         for i, Hb in enumerate(H_bond):
             if Hb is None:
